@@ -3,6 +3,7 @@ package main
 import (
 	"cmp"
 	"fmt"
+	"github.com/emirpasic/gods/v2/sets/treeset"
 	"math"
 
 	"github.com/emirpasic/gods/v2/maps/treebidimap"
@@ -97,6 +98,9 @@ func floatDefaultSys(j Job) Sys {
 	sys := &KVSys[float64, Val]{Kind: kind, Order: order, CmpN: "nat", N: len(ku), KU: ku, Label: "/New()/float64",
 		Fresh: func(i int) Val { return Val(i) }, KCmp: cmp.Compare[float64], VCmp: func(a, b Val) int { return int(a - b) }, PropsL: kvProps,
 		Probes: func(live []float64) []float64 { return []float64{-7, 1, math.Inf(-1)} }}
+	if kind == "treeset" {
+		sys.Fresh = func(i int) Val { return 0 }
+	}
 	sys.Custom = func(b *kvBox[float64, Val]) *kvAPI[float64, Val] {
 		switch kind {
 		case "rbt":
@@ -107,6 +111,8 @@ func floatDefaultSys(j Job) Sys {
 			return wrapBT(btree.New[float64, Val](order), order)
 		case "treemap":
 			return wrapTreeMap(treemap.New[float64, Val]())
+		case "treeset":
+			return wrapTreeSetKV[float64, Val](treeset.New[float64]())
 		}
 		panic("tool error: no float default constructor job for " + kind)
 	}
